@@ -43,7 +43,7 @@ class StubDriver:
 
 def driver_path(ctx, d, n, name="", pair=False):
     """scripted StochasticJumpPath of a d-dimensional driver on n+1 times: cumulative jump / diffusion values, symbolic"""
-    times = np.empty(n + 1, dtype=object)
+    times = np.empty(n + 1, dtype=_dt(ctx))
     times[0] = 0.0
     prev = 0.0
     for i in range(1, n + 1):
@@ -52,8 +52,8 @@ def driver_path(ctx, d, n, name="", pair=False):
         prev = times[i]
     lead = (2,) if pair else ()
     shape = lead + ((d, n + 1) if d > 1 else (n + 1,))
-    J = np.empty(shape, dtype=object)
-    W = np.empty(shape, dtype=object)
+    J = np.empty(shape, dtype=_dt(ctx))
+    W = np.empty(shape, dtype=_dt(ctx))
     for idx in np.ndindex(*shape):
         if idx[-1] == 0:
             J[idx] = 0.0
@@ -100,20 +100,26 @@ class CoefTime(LSDE.SDEFunction):
         return self.A0 + self.A2 * t
 
 
+def _dt(ctx):
+    """array dtype for harness-built inputs: object under exploration (symbols), float in the concrete re-run (plain numbers: the library's
+    float state arrays are updated in place and cannot absorb object arrays)"""
+    return float if getattr(ctx, "concrete", False) else object
+
+
 def make_model(ctx, m, d, coef):
-    x0 = np.array([ctx.real(f"x0_{i}") for i in range(m)], dtype=object)
+    x0 = np.array([ctx.real(f"x0_{i}") for i in range(m)], dtype=_dt(ctx))
     if coef == "constant":
         c = ctx.real("c")
         a = LSDE.Constant(m=m, d=d, constant=c)
     elif coef == "diag":
         a = LSDE.DiagX(dimension=m)
     elif coef == "time":
-        A0 = np.array([[ctx.real(f"A0_{i}{j}") for j in range(d)] for i in range(m)], dtype=object)
-        A2 = np.array([[ctx.real(f"A2_{i}{j}") for j in range(d)] for i in range(m)], dtype=object)
+        A0 = np.array([[ctx.real(f"A0_{i}{j}") for j in range(d)] for i in range(m)], dtype=_dt(ctx))
+        A2 = np.array([[ctx.real(f"A2_{i}{j}") for j in range(d)] for i in range(m)], dtype=_dt(ctx))
         a = CoefTime(A0, A2)
     else:
-        A0 = np.array([[ctx.real(f"A0_{i}{j}") for j in range(d)] for i in range(m)], dtype=object)
-        A1 = np.array([[ctx.real(f"A1_{i}{j}") for j in range(d)] for i in range(m)], dtype=object)
+        A0 = np.array([[ctx.real(f"A0_{i}{j}") for j in range(d)] for i in range(m)], dtype=_dt(ctx))
+        A1 = np.array([[ctx.real(f"A1_{i}{j}") for j in range(d)] for i in range(m)], dtype=_dt(ctx))
         a = CoefAffine(A0, A1)
     model = LSDE.LevyDrivenSDEModel(driver=StubDriver(d), x0=x0, a=a)
     return model, x0, a
@@ -242,7 +248,7 @@ def h_single(ctx, m, d, n, coef):
     model, x0, a = make_model(ctx, m, d, coef)
     x0_given = [x for x in x0]
     path = driver_path(ctx, d, n)
-    mu = ctx.real("mc_drift") if d == 1 else np.array([[ctx.real(f"mc_drift{k}")] for k in range(d)], dtype=object)
+    mu = ctx.real("mc_drift") if d == 1 else np.array([[ctx.real(f"mc_drift{k}")] for k in range(d)], dtype=_dt(ctx))
     proc = MSDE.MarkovChainSDE.__new__(MSDE.MarkovChainSDE)
     proc.model = model
     proc.process_representation = ProcessRepresentation.IDENDITY
